@@ -202,18 +202,46 @@ def check_intersect_plane(run, rule='R23'):
 
 
 def check_closest(run, rule='R23'):
+    """closest(x): the result tuple (p, d, lam) -- fields read from the namedtuple declaration, values with every local put in
+    place, whatever the locals are called -- has lam = (x - pp).uw and p = point(lam)."""
     f = run.prog.func('geom3d:Plucker.closest')
     fi = FuncInfo.of(f)
     s = f.selfname
     from ..cfg import pure_locals, _subst_pure
-    pl = {k: canon(fi, v, inline=False) for k, v in pure_locals(f.node).items() if k not in ('lam', 'p', 'd')}
-    defs = {st.targets[0].id: _subst_pure(canon(fi, st.value, inline=False), pl) for st in own_walk(f.node)
-            if isinstance(st, ast.Assign) and isinstance(st.targets[0], ast.Name)}
     x = [p for p in f.params if p != s][0]
-    ok_l = 'lam' in defs and matches('dot(%s - %s.pp, %s.uw)' % (x, s, s), defs['lam']) is not None
-    ok_p = 'p' in defs and (matches('%s.point(lam).flatten()' % s, defs['p']) is not None or matches('%s.point(lam)' % s, defs['p']) is not None)
-    (run.holds if ok_l else run.violation)(rule, f.key, 'parameter of the closest point', 'lam = (x - pp).uw' if ok_l else 'lam is %s, not dot(x - pp, uw)' % (ast.unparse(defs['lam']) if 'lam' in defs else None), f=f)
-    (run.holds if ok_p else run.violation)(rule, f.key, 'closest point from its parameter', 'p = point(lam)' if ok_p else 'p is not point(lam)', f=f)
+    env = {k: canon(fi, v, inline=False) for k, v in pure_locals(f.node).items()}
+    fields = None
+    for c in own_walk(f.node):
+        if isinstance(c, ast.Call) and getattr(c.func, 'id', getattr(c.func, 'attr', None)) == 'namedtuple' and len(c.args) >= 2:
+            a = c.args[1]
+            if isinstance(a, ast.Constant) and isinstance(a.value, str):
+                fields = a.value.replace(',', ' ').split()
+            elif isinstance(a, (ast.List, ast.Tuple)) and all(isinstance(e, ast.Constant) for e in a.elts):
+                fields = [e.value for e in a.elts]
+    rets = [r for r in own_walk(f.node) if isinstance(r, ast.Return) and isinstance(r.value, ast.Call)]
+    P = L = None
+    if fields and 'p' in fields and 'lam' in fields and len(rets) == 1:
+        c = rets[0].value
+        vals = {}
+        for k, a in zip(fields, c.args):
+            vals[k] = a
+        for kw in c.keywords:
+            if kw.arg:
+                vals[kw.arg] = kw.value
+        if 'p' in vals and 'lam' in vals:
+            for _ in range(6):
+                vals = {k: _subst_pure(canon(fi, v, inline=False), env) for k, v in vals.items()}
+            P, L = vals['p'], vals['lam']
+    if P is None:
+        run.error('R23: Plucker.closest: the result is not a namedtuple call with the fields p and lam')
+        return
+    ok_l = matches('dot(%s - %s.pp, %s.uw)' % (x, s, s), L) is not None
+    bp = matches('%s.point(_L).flatten()' % s, P) or matches('%s.point(_L)' % s, P)
+    ok_p = bp is not None and ast.dump(bp['_L']) == ast.dump(L)
+    (run.holds if ok_l else run.violation)(rule, f.key, 'parameter of the closest point', 'lam = (x - pp).uw' if ok_l else
+                                           'lam is %s, not dot(x - pp, uw)' % ast.unparse(L), f=f)
+    (run.holds if ok_p else run.violation)(rule, f.key, 'closest point from its parameter', 'p = point(lam)' if ok_p else
+                                           'p is %s, not point(lam) of the returned lam' % ast.unparse(P)[:80], f=f)
 
 
 # =========================================================================== line-line distance
